@@ -120,10 +120,25 @@ def design_check(tier, stamp):
         return {"shapes": ["line writer: all chunkings x 2 rounds"], "bounds": {}, "ok": "No error has been found" in out,
                 "generated": gen, "distinct": dist, "errors": vlib.tlc_error(out)[:3]}
 
+    def watch_mc(_):
+        # watch mode's debouncer / builder: no lost update, no spurious build, settles; and the
+        # tempting simplification (dirty cleared on every tick) must be rejected by the same check
+        spec = os.path.join(vlib.VERIF, "specs", "watch")
+        cfg = ("SPECIFICATION Spec\nCONSTANTS\n  MaxEdits = %d\n  MaxSelfWrites = 2\n  Handoff = \"%s\"\n"
+               "INVARIANTS TypeOK NoLostUpdate NoSpuriousBuild\nPROPERTY Settles\nCHECK_DEADLOCK FALSE\n")
+        rc, out, wd = vlib.tlc(spec, "Watch", cfg="run.cfg", workers=4, timeout=1200, heap="4g", files={"run.cfg": cfg % (3 if tier == "quick" else 5, "clear")})
+        gen, dist = vlib.tlc_stats(out)
+        rc2, out2, wd2 = vlib.tlc(spec, "Watch", cfg="run.cfg", workers=4, timeout=1200, heap="4g", files={"run.cfg": cfg % (3, "always")})
+        ok = "No error has been found" in out and "Invariant NoLostUpdate is violated" in out2
+        return {"shapes": ["watch mode: debouncer and builder"], "bounds": {}, "ok": ok, "generated": gen, "distinct": dist,
+                "errors": vlib.tlc_error(out)[:3] + ([] if "NoLostUpdate is violated" in out2 else ["the lossy hand-off variant was not rejected"])}
+
     with ThreadPoolExecutor(max_workers=3) as ex:
         fl = ex.submit(line_mc, None)
+        fw = ex.submit(watch_mc, None)
         runs = list(ex.map(one, DESIGN_BOUNDS[tier]))
         runs.append(fl.result())
+        runs.append(fw.result())
     return {"ok": all(r["ok"] for r in runs), "generated": sum(r["generated"] for r in runs), "distinct": sum(r["distinct"] for r in runs),
             "runs": runs, "stamp": stamp, "errors": [e for r in runs for e in r["errors"]][:4]}
 
@@ -339,6 +354,26 @@ def harness_cases(tier, sd):
     # an always-target that stops being one after a dry run
     add("dry", "alwaysoff", [B("T2"), B("T2", "dry"), {"op": "reshape"}, B("T2"), B("T2")], twin="dry")
     add("dry", "alwaysoff", [B("T2"), {"op": "reshape"}, B("T2"), B("T2")])
+    # watch mode itself: Project.Watch runs while the tree is edited, also in the middle of a build
+    # (a body is held after it has read its inputs); judged when watch mode has settled
+    def W(root, *script):
+        return {"op": "watch", "root": root, "script": list(script)}
+    H = lambda t: {"op": "hold", "t": t}
+    R = lambda t: {"op": "release", "t": t}
+    held, quiet, nap = {"op": "wait_held"}, {"op": "quiet"}, {"op": "sleep"}
+    for name in (["chain", "generated"] if quick else ["chain", "generated", "diamond", "twopkg", "nestedpkg"]):
+        shape = SHAPES[name]
+        top = roots_of(shape)[0]
+        inner = sorted(n for n in shape["targets"] if n != top)[0]
+        s0 = [s for s in shape["sources"] if not any(s in t["gens"] for t in shape["targets"].values())][0]
+        es = {"op": "edit_src", "s": s0}
+        ee = {"op": "edit_env", "t": inner}
+        add("watchloop", name, [B(top), W(top, es, quiet)])
+        add("watchloop", name, [B(top), W(top, H(inner), es, held, es, R(inner), quiet)])
+        add("watchloop", name, [B(top), W(top, {"op": "nonedit", "kind": "touch"}, quiet, {"op": "nonedit", "kind": "rewrite"}, quiet)])
+        add("watchloop", name, [B(top), W(top, ee, quiet, es, nap, es, quiet)])
+        add("watchloop", name, [W(top, H(inner), es, held, ee, es, R(inner), nap, es, quiet)])
+        add("watchloop", name, [B(top), W(top, es, nap, es, nap, ee, nap, es, nap, es, quiet)])
     for name, shape in FAILING_SHAPES.items():
         for top in sorted(shape["targets"]):
             c = {"id": "bad-%s-%d" % (name, len(cases)), "shape": shape, "seed": 0,
@@ -548,6 +583,15 @@ def pipeline(tier):
                               "real": {"execd": sorted(r["execd"]), "evaluating": sorted(r["evaluating"]), "end": r["end"]}})
                 break
     res["drift_checked"], res["drift_count"], res["drift"] = checked, len(drift), drift[:10]
+    # watch-mode traces against the design spec of the debouncer / builder (diagnostic)
+    wl = [{"id": t["id"], "events": [e for e in to_p_line(t)["events"] if e["ev"] in ("WatchBegin", "Edit", "Watch", "BuildBegin", "Load", "BuildEnd", "Quiesce")]}
+          for t in traces if any(e["ev"] == "WatchBegin" for e in t["events"])]
+    res["watch_traces"] = len(wl)
+    try:
+        wd_ = vlib.eval_drift(os.path.join(vlib.VERIF, "specs", "watch"), "WatchTrace", "WatchTrace.cfg", wl)
+        res["watch_drift_count"], res["watch_drift"] = len(wd_), wd_[:5]
+    except Inconclusive as e:
+        res["watch_drift_error"] = str(e)[:600]
     res["distinct_histories"] = len({json.dumps([c["shape"], c["steps"], c.get("values", "")], sort_keys=True) for c in cases})
     res["samples"] = [{"id": t["id"], "steps": t["steps"][:8], "events": to_p_line(t)["events"][:14]} for t in traces[:1] + traces[-1:]]
     res["wall_s"] = time.time() - t0
@@ -582,9 +626,15 @@ def check(prop, tier):
         "linewriter_chunkings_executed": res.get("linewriter_cases", 0),
         "histories_compared_with_spec_prediction": res["drift_checked"], "design_drift": res["drift_count"],
         "design_drift_samples": res["drift"][:3], "child_errors": res["child_errors"], "exhaustive": False,
+        "watch_mode_runs_validated_against_Watch_tla": res.get("watch_traces", 0), "watch_design_drift": res.get("watch_drift_count", 0),
+        "watch_design_drift_samples": res.get("watch_drift", [])[:2],
         "rule": "distinct = distinct (shape, value class, step sequence) histories executed on the real dawn with a fresh Load+Run per step; every history is evaluated by BuildMon",
         "family_wall_s": round(res["wall_s"], 1),
     }
+    if res.get("watch_drift_count"):
+        print("DRIFT: %d watch-mode runs are not behaviours of specs/watch/Watch.tla (diagnostic only)" % res["watch_drift_count"])
+    if res.get("watch_drift_error"):
+        cov["watch_design_drift_error"] = res["watch_drift_error"]
     if res["drift_count"]:
         print("DRIFT: %d histories executed different targets than specs/build/Build.tla predicts (diagnostic only)" % res["drift_count"])
     assumptions = ["process death = os.Exit at a named point (no power loss: written data survives)", "os.Rename is atomic",
